@@ -20,7 +20,7 @@ TRUSTED_BASE = common.TRUSTED_BASE_COMMON + [
     "every row of the generated workflow table"]
 ASSUMPTIONS = ["reference provider protocol (atomic poll); in-flight = acknowledged actions that have not reported a "
                "completed status; known finding D1"]
-FAM = progs.family(w_ctrl=1.5, p_cmd=0.25, p_fail=0.2, p_intermediate=0.0, w_malformed=0.03, n_tasks=(2, 7),
+FAM = progs.family(p_bad=0.06, p_retry=0.2, p_cleanup_fail=0.1, w_ctrl=1.5, p_cmd=0.25, p_fail=0.2, p_intermediate=0.0, w_malformed=0.03, n_tasks=(2, 7),
                    steps=(15, 70), w_rerun=0.0)
 
 
